@@ -49,7 +49,7 @@ def build(variant='default'):
     return d, exe, ''
 
 
-def _search_one(variant, families):
+def _search_one(variant, families, deep=0):
     d, exe, err = build(variant)
     out = dict(findings=[], error=None, evaluations=0)
     try:
@@ -58,7 +58,7 @@ def _search_one(variant, families):
             return out
         for fam in families:
             try:
-                p = subprocess.run([exe, 'search', fam], capture_output=True, text=True, timeout=900)
+                p = subprocess.run([exe, 'search', fam], capture_output=True, text=True, timeout=2400, env=dict(os.environ, WITNESS_DEEP=str(deep)))
             except subprocess.TimeoutExpired:
                 out['error'] = 'witness search timed out (%s)' % variant
                 continue
@@ -81,13 +81,13 @@ def _search_one(variant, families):
     return out
 
 
-def search(families=('all',), variants=('default', 'sse42', 'swar', 'avx2ct')):
+def search(families=('all',), variants=('default', 'sse42', 'swar', 'avx2ct'), deep=0):
     """the same search on the same working tree built for each scanner back end; every finding carries `backend`.
     A finding that some back ends produce and others do not is additionally marked backend_dependent (C13)."""
     import concurrent.futures
     with concurrent.futures.ThreadPoolExecutor(max_workers=len(variants)) as ex:
-        rs = dict(zip(variants, ex.map(lambda v: _search_one(v, families), variants)))
-    out = dict(findings=[], error=None, evaluations=0, per_backend={})
+        rs = dict(zip(variants, ex.map(lambda v: _search_one(v, families, deep), variants)))
+    out = dict(findings=[], error=None, evaluations=0, per_backend={}, deep=deep)
     seen = {}
     for v in variants:
         r = rs[v]
